@@ -374,7 +374,8 @@ fn closes_block(op: &Op) -> bool { matches!(op, Op::Finalise { .. } | Op::Mine {
 pub fn c03_eval(h: &[Op], seed: u64, dist: Option<&mut Dist>) -> Vec<Finding> {
     let mut fs = Vec::new();
     let mut rng = Rng::new(seed);
-    let scheds = [CommitSchedule::Never, CommitSchedule::Every, CommitSchedule::EveryK(3), CommitSchedule::Random, CommitSchedule::EveryK(2)];
+    // variant 5 never commits during the history and commits exactly once in the end game
+    let scheds = [CommitSchedule::Never, CommitSchedule::Every, CommitSchedule::EveryK(3), CommitSchedule::Random, CommitSchedule::EveryK(2), CommitSchedule::Never];
     // variant 4 also reopens / clears right after some of its commits (nothing may be lost)
     let mut runs: Vec<Run> = scheds.iter().map(|_| Run::new()).collect();
     let mut k = 0u64;
@@ -426,6 +427,55 @@ pub fn c03_eval(h: &[Op], seed: u64, dist: Option<&mut Dist>) -> Vec<Finding> {
                     f.first_difference["other_history"] = json!(variant_hist[v]);
                     fs.push(f);
                     return finish_c03(fs, runs, dist);
+                }
+            }
+        }
+    }
+    // End game: "for any later sequence of operations" includes the deepest reorg the window
+    // admits, issued right after a commit. The history is padded to a height above the window,
+    // some variants commit exactly now (a commit at height B+W-1 for the keys of block B = the
+    // edge of the history-retention rule), all variants reorg to the same target (half of the
+    // time the deepest admissible one), and one more block is added on top.
+    if fs.is_empty() && alive && runs[0].tracker.at_boundary() && !runs[0].tracker.desynced {
+        if let Some(h0) = runs[0].tracker.height() {
+            let w = brc20_prog::verif_hooks::MAX_REORG_HISTORY_SIZE;
+            let mut tail: Vec<Op> = Vec::new();
+            if h0 < w + 1 { tail.push(Op::Mine { n: w + 1 - h0, ts: 1_760_000_000 }); }
+            let top = h0.max(w + 1);
+            let max_ever = runs[0].tracker.max_ever.unwrap_or(top).max(top);
+            let deepest = max_ever.saturating_sub(w);
+            if deepest < top {
+                let target = if rng.chance(1, 2) { deepest } else { deepest + rng.below(top - deepest) };
+                let mut ok = true;
+                'v: for (v, r) in runs.iter_mut().enumerate() {
+                    for op in &tail { if r.step(op).status.is_fatal() { ok = false; break 'v; } variant_hist[v].push(op.clone()); }
+                    // Never stays uncommitted; Every / EveryK(3) / Random / the second Never commit now; EveryK(2) keeps its own rhythm
+                    if v == 1 || v == 2 || v == 3 || v == 5 { let _ = r.step(&Op::Commit); variant_hist[v].push(Op::Commit); }
+                    for op in [Op::Reorg(target), Op::Mine { n: 1, ts: 1_760_000_100 }] {
+                        if r.step(&op).status.is_fatal() { ok = false; break 'v; }
+                        variant_hist[v].push(op);
+                    }
+                }
+                if !ok { fs.extend(fatal_finding("c03", &runs[0])); return finish_c03(fs, runs, dist); }
+                let st: Vec<String> = runs.iter().map(|r| r.log.iter().rev().take(2).map(|(_, o)| o.status.class()).collect::<Vec<_>>().join("/")).collect();
+                if st.iter().any(|x| *x != st[0]) {
+                    fs.push(finding("c03:endgame_status", format!("after a final commit, reorg({}) and one more block are answered differently under different commit schedules", target),
+                        json!({"statuses": scheds.iter().map(|s| format!("{:?}", s)).zip(st.iter()).collect::<Vec<_>>(), "target": target, "histories": variant_hist})));
+                    return finish_c03(fs, runs, dist);
+                }
+                let mut u = runs[0].universe.clone();
+                for r in runs.iter().skip(1) { u.merge(&r.universe); }
+                let o0 = runs[0].observe_with(&u);
+                for v in 1..runs.len() {
+                    let ov = runs[v].observe_with(&u);
+                    let d = diff_obs(&o0, &ov);
+                    if !d.is_empty() {
+                        let mut f = diff_finding("c03:endgame", &format!("after the history, a commit at height {} (schedule {:?}), reorg({}) and one more block, reads differ from the run that never committed", top, scheds[v], target), &d, ("never", "other"));
+                        f.first_difference["other_history"] = json!(variant_hist[v]);
+                        f.first_difference["never_history"] = json!(variant_hist[0]);
+                        fs.push(f);
+                        return finish_c03(fs, runs, dist);
+                    }
                 }
             }
         }
